@@ -34,6 +34,7 @@ type RunSpec struct {
 	// lock state, lock sets): a witness is confirmed by re-running the real
 	// code in the engine with every input fixed to the model's values
 	EngineConfirm string `json:"engine_confirm"`
+	Solver        string `json:"solver"` // solver binary for this run (default z3)
 }
 
 type PropSpec struct {
@@ -344,14 +345,16 @@ func checkMain(args []string) {
 			params = map[string]int{}
 		}
 		ls := &loadSpec{Dir: dir, Pkg: rs.Pkg, Files: rs.Files, Fn: rs.Fn, Params: params, Overrides: rs.Overrides,
-			TimeoutMS: rs.TimeoutMS, MaxSteps: rs.MaxSteps, XCheck: tier == "thorough"}
+			TimeoutMS: rs.TimeoutMS, MaxSteps: rs.MaxSteps, XCheck: tier == "thorough", Solver: rs.Solver}
 		if ls.Pkg == "" {
 			ls.Pkg = "."
 		}
 		if ls.TimeoutMS == 0 {
-			ls.TimeoutMS = 20000
+			// per-query limit of the incremental solver; a query it gives up on is
+			// retried one-shot (fresh process, full preprocessing) with >= 30 s
+			ls.TimeoutMS = 8000
 			if tier == "thorough" {
-				ls.TimeoutMS = 120000
+				ls.TimeoutMS = 60000
 			}
 		}
 		if ls.MaxSteps == 0 {
